@@ -18,6 +18,8 @@
 //                                 from which thread 2 resolves it later
 //   op [4 b]                      b=1: the user callback of callback_await throws after it has done its work
 //   op [5 kind datum]             competing resolver on thread 2 (mode 2 only): value / exception / p(drop)
+//   op [6 kind datum]             call_fn_future_awaiter only: the completion handler re-arms the same awaiter with a second operation
+//                                 that is still pending when the handler returns; thread 2 resolves it (value / exception / dropped)
 //   op [9 k k k ...]              schedule
 // The harness contains no expected values: it prints the (tid, point) trace, the events and the counters.
 #include "ctl.h"
@@ -263,11 +265,17 @@ struct MpFn : FnBase {
 template <typename H>
 struct CfObj {
     Ctx *c;
+    std::function<void()> rearm;   // set when the handler is to start the next operation on the same awaiter
+    bool rearmed = false;
     suspend_point<void> done(future<H> &f) noexcept {
         long kind, datum;
         read_future(f, kind, datum);
         c->cb_enter(kind, datum);
         c->cb_exit();
+        if (rearm && !rearmed) {
+            rearmed = true;
+            rearm();
+        }
         return {};
     }
 };
@@ -326,7 +334,7 @@ struct OuterHold {
 };
 
 struct Cfg {
-    long ad = -1, mode = -1, stor = -1, k = -1, d = 0, ck = 0, cd = 0, spec = 0, cbthrow = 0, k2 = -1, d2 = 0;
+    long ad = -1, mode = -1, stor = -1, k = -1, d = 0, ck = 0, cd = 0, spec = 0, cbthrow = 0, k2 = -1, d2 = 0, k3 = -1, d3 = 0;
     bool isvoid = false;
     std::vector<long> sched;
     bool valid() const {
@@ -338,6 +346,7 @@ struct Cfg {
         if (spec < 0 || spec > 3 || (isvoid && (spec == 1 || spec == 2))) return false;
         if (ad == 1 && mode < 2) return false;
         if (k2 < -1 || k2 > 2 || (k2 >= 0 && mode != 2)) return false;
+        if (k3 < -1 || k3 > 2 || (k3 >= 0 && (ad != 4 || k2 >= 0))) return false;
         return true;
     }
 };
@@ -345,7 +354,7 @@ struct Cfg {
 static Cfg parse(const vh::Case &cs, bool isvoid) {
     Cfg g;
     g.isvoid = isvoid;
-    bool h1 = false, h2 = false, h3 = false, h4 = false, h5 = false;
+    bool h1 = false, h2 = false, h3 = false, h4 = false, h5 = false, h6 = false;
     for (auto &op : cs.ops) {
         if (op.empty()) continue;
         if (op[0] == 1 && !h1) {
@@ -365,6 +374,9 @@ static Cfg parse(const vh::Case &cs, bool isvoid) {
         } else if (op[0] == 5 && !h5) {
             h5 = true;
             if (op.size() == 3 && op[1] >= 0 && op[1] <= 2) { g.k2 = op[1]; g.d2 = op[2]; } else g.k2 = -2;
+        } else if (op[0] == 6 && !h6) {
+            h6 = true;
+            if (op.size() == 3 && op[1] >= 0 && op[1] <= 2) { g.k3 = op[1]; g.d3 = op[2]; } else g.k3 = -2;
         } else if (op[0] == 9) {
             g.sched.insert(g.sched.end(), op.begin() + 1, op.end());
         }
@@ -372,6 +384,7 @@ static Cfg parse(const vh::Case &cs, bool isvoid) {
     if (isvoid) {   // a void value carries no datum
         if (g.k == 0) g.d = 0;
         if (g.k2 == 0) g.d2 = 0;
+        if (g.k3 == 0) g.d3 = 0;
     }
     return g;
 }
@@ -420,8 +433,8 @@ static bool run_case(const vh::Case &cs, bool seq, bool coro) {
     long ret1 = -1, ret2 = -1, busy_end = 0;
     long ta = 0, tad = 0, tb = 0, tbd = 0;
     {
-        counted cell1(g.d), cell2(g.d2);   // referents for the reference variant
-        std::optional<Hold> hold;
+        counted cell1(g.d), cell2(g.d2), cell3(g.d3);   // referents for the reference variant
+        std::optional<Hold> hold, hold2;
         cstorage stor1;
         std::optional<reusable_storage> stor2;
         std::optional<tstorage> stor3a, stor3b;
@@ -431,7 +444,7 @@ static bool run_case(const vh::Case &cs, bool seq, bool coro) {
         if (g.stor == 4) stor4.emplace();
         ConvCtx cctx{&ctx, g.ck, g.cd, {}, 0};
         g_conv = &cctx;
-        CfObj<HT> cfobj{&ctx};
+        CfObj<HT> cfobj{&ctx, {}, false};
         using Fc0 = std::conditional_t<Tr::isvoid, future_conv<&ConvCtx::conv0>, future_conv<&ConvCtx::conv>>;
         using Fc3 = std::conditional_t<Tr::isvoid, future_conv<&ConvCtx::convp0>, future_conv<&ConvCtx::convp>>;
         std::optional<Fc0> fc0;
@@ -474,6 +487,8 @@ static bool run_case(const vh::Case &cs, bool seq, bool coro) {
                     return future<FT>([&](promise<FT> p) { hold.emplace(std::move(p)); });
             }
         };
+        auto mk2 = [&]() -> future<FT> { return future<FT>([&](promise<FT> p) { hold2.emplace(std::move(p)); }); };
+        if (g.k3 >= 0) cfobj.rearm = [&] { *cfa << mk2; };
         auto resolve = [&] {
             if (g.k == 2 && g.k2 < 0) hold.reset();          // lone drop: ~promise
             else ret1 = set_on(hold->p, g.k, g.d, cell1);    // with a competitor the drop is p(drop): the object must stay alive
@@ -554,6 +569,15 @@ static bool run_case(const vh::Case &cs, bool seq, bool coro) {
             in_mode([&] { ret2 = set_on(hold->p, g.k2, g.d2, cell2); });
             ctx.thread_end();
         };
+        auto t2re = [&] {   // resolves the operation the handler started
+            warmup();
+            ctl::block_until("xwait", [&] { return hold2.has_value(); });
+            in_mode([&] {
+                if (g.k3 == 2) hold2.reset();
+                else set_on(hold2->p, g.k3, g.d3, cell3);
+            });
+            ctx.thread_end();
+        };
         bool repark = g.ad == 3 && g.ck == 4;
         auto t2late = [&] {   // resolves the promise the converter forwarded (if it did)
             warmup();
@@ -571,6 +595,7 @@ static bool run_case(const vh::Case &cs, bool seq, bool coro) {
                 if (g.mode == 2) t1();
                 if (g.k2 >= 0) t2();
                 if (repark) t2late();
+                if (g.k3 >= 0) t2re();
                 vh::t_count = false;
             });
             th.join();
@@ -578,9 +603,10 @@ static bool run_case(const vh::Case &cs, bool seq, bool coro) {
             std::vector<std::function<void()>> fns;
             fns.push_back(t0);
             if (g.mode == 2) fns.push_back(t1);
-            else if (repark) fns.push_back([] { cocls::verif::get_hooks().point = &filtered_point; });   // keeps the late resolver at thread id 2
+            else if (repark || g.k3 >= 0) fns.push_back([] { cocls::verif::get_hooks().point = &filtered_point; });   // keeps the late resolver at thread id 2
             if (g.k2 >= 0) fns.push_back(t2);
             if (repark) fns.push_back(t2late);
+            if (g.k3 >= 0) fns.push_back(t2re);
             ctl::Controller c;
             c.run(std::move(fns), g.sched);
             vh::t_count = false;
@@ -608,6 +634,8 @@ static bool run_case(const vh::Case &cs, bool seq, bool coro) {
         fc3.reset();
         cfa.reset();
         hold.reset();
+        hold2.reset();
+        cfobj.rearm = nullptr;
         stor2.reset();
         stor4.reset();
         vh::t_count = false;
